@@ -566,6 +566,8 @@ namespace {
 struct HistHarness : Harness {
 	const char *name() const override { return "psv_hist"; }
 	bool serves(const std::string &p) const override { return p == "C16" || p == "C18" || p == "C19" || p == "C20"; }
+	// histories take milliseconds; C19 tables and C20 enumerations up to seconds
+	unsigned watchdog_s(const std::string &p, const std::string &tier) const override { return (p == "C19" || tier == "thorough") ? 300 : 90; }
 	void init() override { c18_warm_up(); }
 
 	Json generate(const std::string &prop, uint64_t runseed, const std::string &tier) override {
